@@ -68,3 +68,80 @@ def dur(ms):
 
 def epoch_of(x):
     return f'({x}).durationSince({EPOCH}).toMilliseconds()'
+
+
+# ------------------------------------------------------------------ symbolic cedar Values
+
+KINDS = ['bool', 'long', 'string', 'entity', 'set', 'record', 'ext']
+KIND_NATIVE = {'bool': 'bool', 'long': 'long', 'string': 'string', 'entity': 'entity', 'set': 'set', 'record': 'record',
+               'ipaddr': 'ext', 'decimal': 'ext', 'datetime': 'ext', 'duration': 'ext'}
+
+
+class SymValue:
+    """an arbitrary `ast::value::Value`: opaque struct whose `value: ValueKind` field, the `Literal` inside and the
+    bool / long payloads are lazily created symbolic terms.  `code` is the Cedar type of the value as an index into KINDS."""
+
+    def __init__(s, ex, name):
+        s.ex, s.name = ex, name
+        s.v = Opaque('ast::value::Value', name)
+        s.vk = ex.opaque_field(s.v, None, 0, 'ast::value::ValueKind')
+        s.vk_disc = ex.disc_term(s.vk)
+        s.lit = ex.opaque_field(s.vk, 'Lit', 0, 'ast::literal::Literal')
+        s.lit_disc = ex.disc_term(s.lit)
+        s.b = ex.opaque_field(s.lit, 'Bool', 0, 'bool').t
+        s.n = ex.opaque_field(s.lit, 'Long', 0, 'i64').t
+        VK = ex.variants_of('ast::value::ValueKind')
+        LT = ex.variants_of('ast::literal::Literal')
+        if VK is None or LT is None or set(VK) != {'Lit', 'Set', 'Record', 'ExtensionValue'} or set(LT) != {'Bool', 'Long', 'String', 'EntityUID'}:
+            raise NotEncoded(f'ValueKind / Literal variants changed: {VK} {LT}')
+        s.VK, s.LT = VK, LT
+        is_lit = s.vk_disc == VK['Lit']
+        s.code = z3.If(is_lit, z3.If(s.lit_disc == LT['Bool'], 0, z3.If(s.lit_disc == LT['Long'], 1, z3.If(s.lit_disc == LT['String'], 2, 3))),
+                       z3.If(s.vk_disc == VK['Set'], 4, z3.If(s.vk_disc == VK['Record'], 5, 6)))
+
+    def ins(s, prefix):
+        return {f'{prefix}_kind': s.code, f'{prefix}_b': s.b, f'{prefix}_n': s.n}
+
+    @staticmethod
+    def input_decl(prefix):
+        return [(f'{prefix}_kind', 'u8'), (f'{prefix}_b', 'bool'), (f'{prefix}_n', 'i64')]
+
+
+def cedar_value(kind, b, n, empty_set=False):
+    """Cedar expression text for a concrete value of the given kind code"""
+    k = KINDS[kind]
+    if k == 'bool':
+        return 'true' if b else 'false'
+    if k == 'long':
+        return f'({n})' if n < 0 else str(n)
+    return {'string': '"s"', 'entity': 'User::"alice"', 'set': '[]' if empty_set else '[1]', 'record': '{a: 1}', 'ext': 'ip("1.2.3.4")'}[k]
+
+
+def gen_value(rand, prefix, boundary):
+    k = rand.choice([0, 1, 1, 1, 2, 3, 4, 5, 6])
+    return {f'{prefix}_kind': k, f'{prefix}_b': rand.random() < 0.5, f'{prefix}_n': rand.choice(boundary) if rand.random() < 0.7 else rand.randint(-(1 << 63), (1 << 63) - 1)}
+
+
+def classify_eval(a):
+    """native answer of the eval op -> (tag, vals) in the vocabulary of the operator specifications"""
+    if 'panic' in a:
+        return 'panic', []
+    if 'ok' in a:
+        k = a['ok']['kind']
+        if k == 'long':
+            return 'OkLong', [int(a['ok']['v'])]
+        if k == 'bool':
+            return 'OkBool', [bool(a['ok']['v'])]
+        return 'OkOther', [k]
+    if a.get('err') == 'IntegerOverflow':
+        return 'Overflow', []
+    if a.get('err') == 'TypeError':
+        import re
+        m = re.match(r'^type error: expected (.*?), got \(?(\w+)', a.get('msg', ''))
+        if m:
+            exp = m.group(1)
+            return 'TypeError', [exp, KINDS.index(KIND_NATIVE.get(m.group(2), 'ext'))]
+        return 'TypeError', [a.get('msg', ''), -1]
+    if 'err' in a:
+        return 'Err:' + a['err'], []
+    raise MachineryError(f'native answer {a}')
